@@ -1,7 +1,7 @@
 """Arithmetic / comparison semantics over the value domain (exact reals, mathematical ints, numpy broadcasting)."""
 from fractions import Fraction
 import z3
-from .vals import SV, Opt, Inf, Vec, Mat, Unsupported, is_num, z3num, StrS, fresh, to_frac
+from .vals import SV, Opt, Inf, Vec, Mat, Unsupported, is_num, z3num, StrS, fresh, to_frac, EnumVal
 
 R = z3.RealSort()
 I = z3.IntSort()
@@ -316,6 +316,15 @@ class Ops:
             if isinstance(a, SV) or isinstance(b, SV):
                 return False
             return a is None and b is None
+        if isinstance(a, EnumVal) or isinstance(b, EnumVal):
+            if isinstance(a, EnumVal) and isinstance(b, EnumVal):
+                return a == b
+            e, x = (a, b) if isinstance(a, EnumVal) else (b, a)
+            if isinstance(x, SV) and x.kind == 'int':
+                return mk(x.t == e.code)      # element read from a symbolic-length list (integer code)
+            if isinstance(x, int) and not isinstance(x, bool):
+                return x == e.code            # idem, constant-folded
+            return False
         if isinstance(a, Inf) or isinstance(b, Inf):
             return isinstance(a, Inf) and isinstance(b, Inf) and a.sign == b.sign
         if isinstance(a, str) or isinstance(b, str):
@@ -416,6 +425,10 @@ class Ops:
             return Opt(z3.simplify(z3.If(c, an, bn)), v)
         if isinstance(a, Inf) or isinstance(b, Inf):
             raise Unsupported('ite with inf')
+        if isinstance(a, EnumVal):
+            a = a.code
+        if isinstance(b, EnumVal):
+            b = b.code
         if isinstance(a, str):
             a = SV(self.ctx.strconst(a))
         if isinstance(b, str):
